@@ -33,7 +33,7 @@ ASSUMES = [
     "asyncio.wait's `done` is a set: its iteration order is chosen by a symbolic index (one choice per run, applied to "
     "every batch with >= 2 members; base order = task creation order)",
     "Debouncer.get_time = the loop's virtual clock (public constructor parameter; the default time.monotonic is never read)",
-    "sources are well-behaved async generators: sleep, then yield / raise; the consumer takes items at once",
+    "sources are well-behaved async generators: sleep, then yield / raise; the consumer sleeps a symbolic 0..1 after each item (merge2) or takes items at once",
     "after a source error only: re-raise of that very error, no duplicates, each source's items a gap-free prefix in order",
     "debounced_sorted_prefix oracle: output = key-sorted permutation of the first m arrivals ++ the remaining arrivals "
     "in arrival order, for some m between #(arrivals strictly before the earliest possible window close) and "
@@ -109,7 +109,7 @@ class _SrcError(Exception):
 
 
 # --------------------------------------------------------------------------------------------- merge_generators
-def _merge_scenario(counts, delays, err_src, err_pos, err_delay, order) -> bool:
+def _merge_scenario(counts, delays, err_src, err_pos, err_delay, order, consumer_delay=0) -> bool:
     """counts[j] items for source j, delays[j][k] before item k; source err_src (if >= 0) raises after err_pos items."""
     loop = SymLoop()
     the_err = _SrcError("boom")
@@ -132,6 +132,7 @@ def _merge_scenario(counts, delays, err_src, err_pos, err_delay, order) -> bool:
         try:
             async for it in iu.merge_generators(*gens):
                 out.append(it)
+                await asyncio.sleep(consumer_delay)  # 0 = yield to the loop once; > 0 lets completions pile up
         except _SrcError as e:
             caught.append(e)
 
@@ -160,30 +161,31 @@ def _merge_scenario(counts, delays, err_src, err_pos, err_delay, order) -> bool:
     return True
 
 
-NQ = B(2, 3)
+NQ = B(3, 3)
+NA = B(2, 3)
 DQ = B(1, 2)
 
 
-@obligation(quick=80, thorough=500,
-            partitions_quick=[f"na == {a} and nb == {b} and o == {o}" for a in (1, 2) for b in (1, 2) for o in (0, 1)],
-            partitions_thorough=[f"na == {a} and nb == {b} and o == {o}" for a in (1, 2, 3) for b in (1, 2, 3) for o in (0, 1)],
-            what="merge of 2 sources, no error: every item once, per-source order, any done-set order",
-            bounds={"sources": 2, "items per source": "1..NQ", "delay": "0..DQ"})
-def ob_merge2(na: int, nb: int, a0: int, a1: int, a2: int, b0: int, b1: int, b2: int, o: int) -> bool:
+@obligation(quick=150, thorough=500,
+            partitions_quick=[f"na == {a} and o == {o}" for a in (0, 1, 2) for o in (0, 1)],
+            partitions_thorough=[f"na == {a} and nb == {b} and o == {o}" for a in (0, 1, 2, 3) for b in (1, 2, 3) for o in (0, 1)],
+            what="merge of 2 sources, no error: every item once, per-source order, any done-set order, slow or prompt consumer",
+            bounds={"sources": 2, "items per source": "0..NA / 1..3", "delay": "0..DQ", "consumer delay": "0..1"})
+def ob_merge2(na: int, nb: int, a0: int, a1: int, a2: int, b0: int, b1: int, b2: int, o: int, cd: int) -> bool:
     """
-    pre: 1 <= na <= NQ and 1 <= nb <= NQ and 0 <= o <= 1
+    pre: 0 <= na <= NA and 1 <= nb <= NQ and 0 <= o <= 1 and 0 <= cd <= 1
     pre: 0 <= a0 <= DQ and 0 <= a1 <= DQ and 0 <= a2 <= DQ and 0 <= b0 <= DQ and 0 <= b1 <= DQ and 0 <= b2 <= DQ
-    pre: (na > 1 or a1 == 0) and (na > 2 or a2 == 0) and (nb > 1 or b1 == 0) and (nb > 2 or b2 == 0)
+    pre: (na > 0 or a0 == 0) and (na > 1 or a1 == 0) and (na > 2 or a2 == 0) and (nb > 1 or b1 == 0) and (nb > 2 or b2 == 0)
     post: _
     """
-    return _merge_scenario([na, nb], [[a0, a1, a2], [b0, b1, b2]], -1, 0, 0, o)
+    return _merge_scenario([na, nb], [[a0, a1, a2], [b0, b1, b2]], -1, 0, 0, o, cd)
 
 
-@obligation(quick=80, thorough=500,
-            partitions_quick=[f"ep == {p} and nb == {b} and o == {o}" for p in (0, 1, 2) for b in (1, 2) for o in (0, 1)],
+@obligation(quick=150, thorough=500,
+            partitions_quick=[f"ep == {p} and o == {o}" for p in (0, 1, 2) for o in (0, 1)],
             partitions_thorough=[f"ep == {p} and nb == {b} and o == {o}" for p in (0, 1, 2) for b in (1, 2, 3) for o in (0, 1)],
             what="merge of 2 sources, source 0 raises after ep items at a symbolic instant: error re-raised, prefixes in order",
-            bounds={"sources": 2, "items": "<= 2 / 1..NQ", "delay": "0..DQ", "error position": "0..2"})
+            bounds={"sources": 2, "items": "<= 2 / 1..3", "delay": "0..DQ", "error position": "0..2"})
 def ob_merge2_error(ep: int, nb: int, a0: int, a1: int, ed: int, b0: int, b1: int, b2: int, o: int) -> bool:
     """
     pre: 0 <= ep <= 2 and 1 <= nb <= NQ and 0 <= o <= 1
@@ -194,18 +196,18 @@ def ob_merge2_error(ep: int, nb: int, a0: int, a1: int, ed: int, b0: int, b1: in
     return _merge_scenario([2, nb], [[a0, a1, 0], [b0, b1, b2]], 0, ep, ed, o)
 
 
-@obligation(quick=80, thorough=500,
+@obligation(quick=150, thorough=500,
             partitions_quick=[f"o == {o}" for o in range(6)],
             partitions_thorough=[f"o == {o} and er == {e}" for o in range(6) for e in (-1, 2)],
             what="merge of 3 sources (batches of up to 3 completions, all 6 done-set orders), optional error in source 2",
-            bounds={"sources": 3, "items per source": "1..2 (quick: 2,1,1)", "delay": "0..DQ"})
-def ob_merge3(a0: int, a1: int, b0: int, c0: int, er: int, o: int) -> bool:
+            bounds={"sources": 3, "items per source": "2, 1..2, 1", "delay": "0..DQ"})
+def ob_merge3(nb: int, a0: int, a1: int, b0: int, b1: int, c0: int, er: int, o: int) -> bool:
     """
-    pre: 0 <= a0 <= DQ and 0 <= a1 <= DQ and 0 <= b0 <= DQ and 0 <= c0 <= DQ and 0 <= o <= 5
-    pre: er == -1 or er == 2
+    pre: 1 <= nb <= 2 and 0 <= a0 <= DQ and 0 <= a1 <= DQ and 0 <= b0 <= DQ and 0 <= b1 <= DQ and 0 <= c0 <= DQ and 0 <= o <= 5
+    pre: (er == -1 or er == 2) and (nb > 1 or b1 == 0)
     post: _
     """
-    return _merge_scenario([2, 1, 1], [[a0, a1, 0], [b0, 0, 0], [c0, 0, 0]], er, 1, 0, o)
+    return _merge_scenario([2, nb, 1], [[a0, a1, 0], [b0, b1, 0], [c0, 0, 0]], er, 1, 0, o)
 
 
 # --------------------------------------------------------------------------------------- debounced_sorted_prefix
@@ -231,6 +233,21 @@ def arrives_at_close(deb, maxw, n, t0, t1, t2) -> bool:
     for i in range(n):
         if ts[i] == c:
             return True
+    return False
+
+
+def late_item_overtakes(deb, maxw, n, t0, t1, t2, k0, k1, k2) -> bool:
+    """An item arrives exactly when the window closes, the buffer is non-empty and holds a smaller key: if that item
+    is taken before the completion sentinel of the same `done` batch it is emitted ahead of the sorted burst."""
+    c = window_close(deb, maxw, n, t0, t1, t2)
+    ts = [t0, t1, t2]
+    ks = [k0, k1, k2]
+    for i in range(n):
+        if ts[i] == c:
+            for j in range(i):
+                if ks[j] < ks[i]:
+                    return True
+            return False
     return False
 
 
@@ -287,8 +304,8 @@ TQ = B(3, 4)
 KQ = B(1, 2)
 
 
-@obligation(quick=80, thorough=500,
-            partitions_quick=[f"n == {n} and deb == {d} and rev == {r}" for n in (1, 2, 3) for d in (1, 2) for r in (False, True)],
+@obligation(quick=150, thorough=500,
+            partitions_quick=[f"n == {n} and rev == {r}" for n in (1, 2, 3) for r in (False, True)],
             partitions_thorough=[f"n == {n} and deb == {d} and rev == {r}" for n in (1, 2, 3) for d in (1, 2) for r in (False, True)],
             what="debounced_sorted_prefix: n items at symbolic instants around the window, symbolic keys, both done-set orders",
             bounds={"items": "1..3", "arrival instants": "0..TQ (non-decreasing)", "debounce": "1..2", "max window": "1..3", "keys": "0..KQ"})
